@@ -51,6 +51,9 @@ type Case struct {
 	// byte 2 over a version 1 layout (C08's open finding); the harness sets that one byte to 1 so that the reader can be
 	// asked about compressed chunks at all.
 	Deflate int `json:"deflate,omitempty"`
+	// BE: the harness turns the written dataset into big-endian storage (byte-order bit of the datatype message set, every
+	// stored element byte-swapped): the values are the same, as a big-endian machine would have stored them
+	BE bool `json:"be,omitempty"`
 	// Deep (2 or 3): the single-leaf chunk index the writer produced is re-arranged by the harness into a B-tree of that many
 	// levels with PerNode entries per node (see deepen.go); what the dataset holds is unchanged
 	Deep      int      `json:"deep,omitempty"`
@@ -244,6 +247,9 @@ func gen(t *rapid.T) Case {
 	}
 	if c.Corpus == "" && c.Chunk != nil && c.WDims == nil && rapid.IntRange(0, 2).Draw(t, "deflate") == 0 {
 		c.Deflate = rapid.IntRange(1, 9).Draw(t, "level")
+	}
+	if c.Corpus == "" && c.Deflate == 0 && rapid.IntRange(0, 3).Draw(t, "bigEndian") == 0 {
+		c.BE = true
 	}
 	if c.Corpus == "" && c.Chunk != nil && c.Deflate == 0 && rapid.IntRange(0, 2).Draw(t, "deep") == 0 {
 		c.Deep = rapid.SampledFrom([]int{2, 2, 3}).Draw(t, "levels")
@@ -450,6 +456,16 @@ func run(c Case) vt.Verdict {
 		}
 		if err := ex.Close(); err != nil {
 			return vt.Bad("Close: %v", err)
+		}
+		if c.BE && c.Deflate == 0 {
+			if img, err := os.ReadFile(file); err == nil {
+				if be, berr := toBigEndian(img, dpath); berr == nil {
+					if err := os.WriteFile(file, be, 0o644); err != nil {
+						return vt.Bad("write back: %v", err)
+					}
+					vt.Recorder(prop).Label("selection", "big_endian_storage_"+c.Type, 1)
+				}
+			}
 		}
 		if c.Deep >= 2 && c.Deep <= 3 {
 			if img, err := os.ReadFile(file); err == nil {
